@@ -52,6 +52,12 @@ def place_str(p):
     return s
 
 
+def short_path(p):
+    for c in ("searchlite_core::", "searchlite_http::", "searchlite_ffi::", "searchlite_cli::", "searchlite_wasm::"):
+        p = p.replace(c, "")
+    return p
+
+
 class Site:
     """A program point: (function, block, statement index | TERM)."""
     __slots__ = ("fn", "b", "i")
@@ -99,10 +105,12 @@ class Fn:
         self._cd = None
         self._defs = None
         self._reach = None
+        # `unreachable` blocks (the `otherwise` of exhaustive matches) are infeasible: drop the edges into them
+        self._dead = {i for i, b in enumerate(self.blocks) if b["term"]["k"] == "unreachable" and not b["stmts"]}
 
     @property
     def short(self):
-        return self.path.split("::", 1)[1] if "::" in self.path else self.path
+        return short_path(self.path)
 
     @property
     def ret_ty(self):
@@ -131,10 +139,14 @@ class Fn:
         if k == "switch":
             out = []
             for x in t["targets"] + [t["otherwise"]]:
-                if x not in out:
+                if x not in out and x not in self._dead:
                     out.append(x)
             return out
         return []
+
+    def dominated_region(self, b):
+        """Blocks dominated by block b (the body of a match/if arm whose entry is b)."""
+        return {x for x in self.reachable() if self.dominates_block(b, x)}
 
     def reachable(self):
         if self._reach is None:
@@ -332,6 +344,83 @@ class Fn:
             seen.add(n)
             st.extend(self.succ(n))
         return seen
+
+    # ---- boolean-flag sensitive reachability -------------------------------------------------------
+    def flag_locals(self):
+        """bool locals all of whose definitions are `const true/false` assignments."""
+        out = {}
+        for l, dfs in self.defs().items():
+            if self.locals[l]["ty"] != "bool" or not dfs:
+                continue
+            vals = []
+            for df in dfs:
+                if df["k"] == "assign" and not df["partial"] and df["rv"]["k"] == "use":
+                    c = op_const(df["rv"]["a"])
+                    if c is not None and "int" in c:
+                        vals.append(c["int"])
+                        continue
+                vals = None
+                break
+            if vals:
+                out[l] = True
+        return out
+
+    def _flag_of(self, operand, flags):
+        """Resolve a switch operand to a flag local through single-definition copies."""
+        l = op_local(operand)
+        seen = set()
+        while l is not None and l not in seen:
+            seen.add(l)
+            if l in flags:
+                return l
+            dfs = self.defs().get(l, [])
+            if len(dfs) == 1 and dfs[0]["k"] == "assign" and dfs[0]["rv"]["k"] == "use":
+                l = op_local(dfs[0]["rv"]["a"])
+            else:
+                return None
+        return None
+
+    def reachable_flag_sensitive(self, start, env=None):
+        """Blocks reachable from `start`, pruning switch edges that contradict the known value of a boolean flag
+        local (a local only ever assigned literal true/false)."""
+        flags = self.flag_locals()
+        init = frozenset((env or {}).items())
+        seen = set()
+        out = set()
+        st = [(start, init)]
+        while st:
+            b, e = st.pop()
+            if (b, e) in seen:
+                continue
+            seen.add((b, e))
+            out.add(b)
+            env_d = dict(e)
+            for s in self.blocks[b]["stmts"]:
+                if s["k"] == "assign" and not s["dst"]["p"] and s["dst"]["l"] in flags and s["rv"]["k"] == "use":
+                    c = op_const(s["rv"]["a"])
+                    if c is not None and "int" in c:
+                        env_d[s["dst"]["l"]] = c["int"]
+            t = self.blocks[b]["term"]
+            if t["k"] == "switch":
+                f = self._flag_of(t["on"], flags)
+                if f is not None and f in env_d:
+                    v = env_d[f]
+                    tgt = dict(zip(t["values"], t["targets"])).get(v, t["otherwise"])
+                    st.append((tgt, frozenset(env_d.items())))
+                    continue
+                if f is not None:
+                    for v, tg in zip(t["values"], t["targets"]):
+                        e2 = dict(env_d)
+                        e2[f] = v
+                        st.append((tg, frozenset(e2.items())))
+                    e2 = dict(env_d)
+                    if t["values"] == [0]:
+                        e2[f] = 1
+                    st.append((t["otherwise"], frozenset(e2.items())))
+                    continue
+            for sx in self.succ(b):
+                st.append((sx, frozenset(env_d.items())))
+        return out
 
     def cfg_path(self, src, dst, avoid=()):
         """Shortest block path src->dst avoiding blocks in `avoid` (None if there is none)."""
